@@ -171,6 +171,16 @@ def gen_cases(ctx, res):
                 s = s.decode('utf-8', 'ignore').encode()
             cases.append((rng.choice([0, 0, 2, 4]), s + (b'\n' if rng.below(2) else b'')))
         out.append({'flg': 0, 'nsub': nsub, 'pats': pats, 'cases': cases, 'trees': wt, 'kind': 'structured'})
+    # ill-formed pattern bytes (a stray continuation byte / a truncated lead byte as the first literal) on VALID multi-byte
+    # lines, case sensitive: the engine tries only character starts (the `tried` positions of C10_sound /
+    # C10_leftmost_priority), the reference does the same; and multi-byte literals directly before a repetition operator
+    # on lines with characters that share the lead byte (the operator binds to the last CHARACTER).  Trees: printed by
+    # the model's parser (kind 'stray' / 'mbrep').
+    srng = ctx.rng.fork('C10-stray')
+    for e in relib.gen_stray(srng, 150 if ctx.quick else 1500):
+        out.append({'flg': 0, 'nsub': 3, 'pats': e['pats'], 'cases': [(srng.choice([0, 0, 2, 4, 6]), l) for l in e['lines']], 'trees': None, 'kind': 'stray'})
+    for e in relib.gen_mbrep(srng, 150 if ctx.quick else 1500):
+        out.append({'flg': srng.below(2), 'nsub': 2, 'pats': e['pats'], 'cases': [(srng.choice([0, 0, 2, 4, 6]), l) for l in e['lines']], 'trees': None, 'kind': 'mbrep'})
     # long lines that hit the recursion-depth limit
     nlong = 40 if ctx.quick else 400
     for i in range(nlong):
@@ -472,6 +482,9 @@ def run_sequences(ctx, res, probe, model, env, sessions=None, ex_scripts=None):
             res.sample({'replayed_ex_script': r.get('script_text'), 'buffer': (out.files.get('f') or b'').decode('utf-8', 'replace')})
     if scripts:
         relib.check_ex_sequences(res, vi, probe, model, scripts, env=env)
+    if ex_scripts is None:
+        # ill-formed pattern bytes / multi-byte literals before a repetition operator, on valid UTF-8 buffers (se noic and se ic)
+        relib.check_ex_utf8(res, vi, model, relib.gen_ex_utf8(ctx.rng.fork('C10-ex-utf8'), 40 if ctx.quick else 400), env=env)
 
 
 def run(ctx):
@@ -550,7 +563,7 @@ def run(ctx):
         d = parse_answer(a)
         parsed.append(d)
         res.count(e['kind'])
-        if d['status'] == 'rej' and e['kind'] in ('structured', 'long'):
+        if d['status'] == 'rej' and e['kind'] in ('structured', 'long', 'mbrep'):
             res.violation({'what': 'a pattern of the accepted grammar is rejected', 'input': [inp(e)], 'observed': a, 'expected': 'compiles'})
         for k, c in enumerate(d['cases']):
             res.evaluations += 1
